@@ -119,8 +119,9 @@ def generate(chk, tier):
         sims = [dict(shapes="{32, 33, 23, 43}", classes=CLASSES_BIG, mode="random", ragged="FALSE", n=500),
                 dict(shapes="{32, 23}", classes=CLASSES_BIG, mode="random", n=60)]
     else:
-        save_confs = [dict(shapes="{10, 11, 21, 12}", classes=CLASSES12), dict(shapes="{31, 22, 13}", classes=CLASSES6),
-                      dict(shapes="{32, 33}", classes=CLASSES4, seps="{44, 9}")]
+        save_confs = [dict(shapes="{10, 11, 21, 12}", classes=CLASSES12),
+                      dict(shapes="{31, 22, 13}", classes=CLASSES6, seps="{44, 59, 32}"),
+                      dict(shapes="{32, 23}", classes=CLASSES3, seps="{9, 124}", hk='{"nasty"}')]
         load_confs = [dict(shapes="{10, 11, 21}", classes=CLASSES10, seps="{44, 32}", hk='{"plain"}', mode="all"),
                       dict(shapes="{12}", classes=CLASSES6, seps="{59, 9}", hk='{"nasty"}', mode="all"),
                       dict(shapes="{31}", classes=CLASSES3, hk='{"plain"}', seps="{124}", mode="all", ragged="FALSE"),
@@ -150,6 +151,7 @@ def generate(chk, tier):
                 continue
             seen.add(key)
             (tables if kind == "save" else texts).append(g)
+    chk.notes.append("generated %d tables to save and %d texts to load" % (len(tables), len(texts)))
     if not tables or not texts:
         raise vlib.MachineryError("generation produced no scenarios (%d tables, %d texts)" % (len(tables), len(texts)))
     return tables, texts
